@@ -130,7 +130,7 @@ def returned_expr(ast):
 # ---------------------------------------------------------------------------
 
 def differing_cells(ctx):
-    exe = os.path.join(C.LEAN, ".lake", "build", "bin", "vdriver")
+    exe = C.vdriver_exe()
     try:
         rc, o = C.sh([exe], input="d\tc11diff\n", timeout=120)
     except Exception as ex:  # noqa
@@ -350,7 +350,7 @@ def replay(ctx, spec, obj):
     """re-run one recorded case: ./check C11 --replay <file>"""
     body, pctx = obj.get("body"), obj.get("context")
     vh = os.path.join(C.BIN, "vharness")
-    exe = os.path.join(C.LEAN, ".lake", "build", "bin", "vdriver")
+    exe = C.vdriver_exe()
     if body is not None:
         c = "p" if pctx == "predicate" else "t"
         env = "match=s:x58,matchLength=n:1" + (",matchNumber=n:1" if c == "t" else "")
